@@ -75,6 +75,12 @@ func runAlias[T any](c *Ctx, r *gen.Rand, at aliasType[T], op aliasOp[T], part [
 	if op.extra != nil {
 		extra = op.extra(r)
 	}
+	// value-level observation of every drawn value, taken on throw-away clones (a broken
+	// library may rewrite what it observes)
+	valEnc := make([]string, nb)
+	for i := range vals {
+		valEnc[i] = at.enc(at.clone(vals[i]))
+	}
 	// distinct storage: every position its own copy
 	dpos := make([]*T, n)
 	for i := 0; i < n; i++ {
@@ -110,7 +116,7 @@ func runAlias[T any](c *Ctx, r *gen.Rand, at aliasType[T], op aliasOp[T], part [
 	c.Bit("method x partition", 64*16, opIdx*16+partIndex(part))
 	det := map[string]any{"method": at.tname + "." + op.name, "partition": partS, "extra": fmt.Sprint(extra)}
 	for i := range vals {
-		det[fmt.Sprintf("value%d", i)] = at.enc(vals[i])
+		det[fmt.Sprintf("value%d", i)] = valEnc[i]
 	}
 	if pvd != nil || pva != nil {
 		if (pvd == nil) != (pva == nil) {
@@ -144,6 +150,13 @@ func runAlias[T any](c *Ctx, r *gen.Rand, at aliasType[T], op aliasOp[T], part [
 	}
 	for b := range objs {
 		if !written[b] && at.snap(objs[b]) != before[b] {
+			if !op.writesRecv && b == part[0] {
+				if at.enc(objs[b]) != valEnc[b] {
+					det["block"] = b
+					c.Fail("a reading method changed the value of its receiver (aliased run)", det)
+				}
+				continue
+			}
 			det["block"] = b
 			c.Fail("a non-receiver argument was modified (aliased run)", det)
 		}
@@ -157,10 +170,15 @@ func runAlias[T any](c *Ctx, r *gen.Rand, at aliasType[T], op aliasOp[T], part [
 			c.Fail("a non-receiver argument was modified (distinct-storage run)", det)
 		}
 	}
+	// the receiver of a reading method (Equal, Bytes, ...) is not a "non-receiver argument":
+	// only its value is required to survive, not its representation
 	if !op.writesRecv && at.snap(dpos[0]) != dbefore[0] {
-		c.Fail("a read-only receiver was modified", det)
+		c.Tally("reading method rewrote its receiver (recorded)")
+		if at.enc(dpos[0]) != valEnc[part[0]] {
+			c.Fail("a reading method changed the value of its receiver", det)
+		}
 	}
-	c.Sample(at.tname+"."+op.name, map[string]any{"method": at.tname + "." + op.name, "partition": partS, "value0": at.enc(vals[0])})
+	c.Sample(at.tname+"."+op.name, map[string]any{"method": at.tname + "." + op.name, "partition": partS, "value0": valEnc[0]})
 }
 
 func partIndex(part []int) int {
@@ -518,9 +536,13 @@ func (c *Ctx) aliasSetters(r *gen.Rand, k int64) {
 		}
 	}
 	// the input sits inside a larger buffer: neighbours must not be touched either
-	buf := r.Bytes(len(in) + 32)
+	buf := r.Bytes(len(in) + 16 + 80)
 	copy(buf[16:], in)
-	in = buf[16 : 16+len(in) : 16+len(in)]
+	if r.Bool() {
+		in = buf[16 : 16+len(in) : 16+len(in)] // exact capacity: an over-read panics
+	} else {
+		in = buf[16 : 16+len(in)] // spare capacity behind the input: an append() would write there
+	}
 	bufCopy := append([]byte(nil), buf...)
 	pv := catch(func() {
 		switch which {
